@@ -265,6 +265,17 @@ def gx_stmt(self, s, rest, env, fin, ind):
             env2 = self.bind(env2, x.id, xty)
         return (f"{pad}let '({', '.join(cname(x.id) for x in tg)}) := {t} in\n"
                 + self.block(rest, env2, fin, ind))
+    if isinstance(s, ast.Assert):
+        # assert x is not None  (x a NAME of type O:T): the rest runs with x : T; a failing assertion
+        # is the value the spec names (assert_fail: a parameter of the result type)
+        sub = gx_opt_subject(self, s.test, env)
+        if s.msg is not None or sub is None or not isinstance(sub[0], ast.Name) or not sub[1] \
+                or "assert_fail" not in self.spec or self.loop_depth or self.kind != "expr":
+            raise Unsupported(f"statement {ast.unparse(s)[:60]}")
+        v, inner, _ = gx_some_env(self, sub[0], env, [])
+        a = self.block(rest, inner, fin, ind + 1)
+        return (f"{pad}match {v} with\n{pad}| Some {v} =>\n{a}\n{pad}| None =>\n"
+                f"{pad}  {fin(env, 'return', self.spec['assert_fail'])}\n{pad}end")
     if isinstance(s, ast.If):
         if ast.unparse(s.test) in self.skip_tests or (rest and self.is_pure(s)):
             return None                 # pysrc's join form comes back here with rest = []
